@@ -79,6 +79,27 @@ claim("C18", "other",
       "decision-table extraction from MIR + ordering enumeration + call-graph reachability + writer inventory",
       "DESIGN.md §3 C18")
 
+claim("C01", "other",
+      "NOT decided: convergence within a bounded number of handshakes over fair schedules (liveness over histories; no sound "
+      "static argument in reach). Decided: the strict-advance clause — for every ordering of sender/receiver frontiers and "
+      "every truncation point the delta computed from the receiver's digest is applied and strictly raises (gc,max) — plus "
+      "necessary structural conditions: empty-tail SetMaxVersion (sender flag discipline and wire re-emission), exclusion set "
+      "built from scheduled-for-deletion members at all four sites, handshake shape per message arm (dataflow of received "
+      "digest/delta into compute/apply, order apply-then-compute on SYN-ACK).",
+      "The induction from per-handshake progress to convergence, MTU effects (C07) and scheduling fairness are outside the check.",
+      "decision-table extraction from MIR + ordering enumeration + dataflow of call arguments",
+      "DESIGN.md §3 C01")
+claim("C16", "other",
+      "Decided on the extracted table of process_message: SYN arm compares the received cluster id by plain string "
+      "(in)equality with config.cluster_id before any state-changing callee; the mismatch side only returns BadCluster; "
+      "BadCluster arm has no effect; the pre-check effect update_self_heartbeat is confined to the own heartbeat (call graph + "
+      "write inventory); create_syn copies config.cluster_id; SYN-ACK/ACK are constructed only as replies; config is never "
+      "written after construction.",
+      "Two-cluster schedules are not explored; isolation of honest clusters follows from the per-message rules (a foreign "
+      "honest node only ever answers BadCluster). String equality semantics assumed.",
+      "decision-table extraction from MIR + constructor/writer inventories + call-graph reachability",
+      "DESIGN.md §3 C16")
+
 ALL = ["C%02d" % i for i in range(1, 21)]
 PENDING_REASON = "check under construction in this session (rules designed in DESIGN.md §3, not yet armed)"
 
